@@ -152,8 +152,7 @@ func (enc *Encoder) enter(v interface{}) bool {
 		return false
 	}
 	if enc.depth >= maxEncodeDepth {
-		enc.Error, enc.refused = ErrNestedTooDeep, true
-		enc.WriteNil()
+		enc.refuse()
 		return false
 	}
 	enc.depth++
@@ -167,8 +166,7 @@ func (enc *Encoder) enter(v interface{}) bool {
 					ok = false
 				} else {
 					enc.depth--
-					enc.Error, enc.refused = ErrNestedTooDeep, true
-					enc.WriteNil()
+					enc.refuse()
 					return false
 				}
 			}
@@ -184,6 +182,15 @@ func (enc *Encoder) enter(v interface{}) bool {
 		}
 	}
 	return true
+}
+
+// refuse writes null for a value nested too deep; the first error of the encoder is kept.
+func (enc *Encoder) refuse() {
+	if enc.Error == nil {
+		enc.Error = ErrNestedTooDeep
+	}
+	enc.refused = true
+	enc.WriteNil()
 }
 
 func (enc *Encoder) leave(v interface{}) {
